@@ -3,6 +3,7 @@
   and the row layout, for all strings and all widths ≥ 1.
 -/
 import SchedVerif.Model.Render
+import SchedVerif.Spec.Render
 namespace SV
 
 /-- the helper rejects widths below 1 and nothing else -/
@@ -90,6 +91,46 @@ theorem C20.pad_keeps_text (a : Align) (w : Nat) (s : List Nat) :
   constructor
   · intro h; subst h; exact List.prefix_append _ _
   · intro h; subst h; exact List.suffix_append _ _
+
+theorem isPrefixB_iff (a b : List Nat) : isPrefixB a b = true ↔ a.IsPrefix b := by
+  induction a generalizing b with
+  | nil => simp [isPrefixB]
+  | cons x xs ih =>
+      cases b with
+      | nil => simp [isPrefixB]
+      | cons y ys =>
+          simp only [isPrefixB, Bool.and_eq_true, beq_iff_eq, ih, List.cons_prefix_cons]
+
+/-- the model's `str_cutoff` satisfies the Bool twin `cutoffSpecB` that the driver evaluates on the
+    implementation's results -/
+theorem C20.cutoff_twin (s : List Nat) (w : Nat) (tail : Bool) (hw : 1 ≤ w) (out : List Nat)
+    (h : strCutoff s w tail = some out) : cutoffSpecB s w tail out = true := by
+  unfold cutoffSpecB
+  by_cases hf : s.length ≤ w
+  · rw [C20.cutoff_fits s w tail hw hf] at h
+    cases h; simp [hf]
+  · simp only [hf, if_false]
+    have hl : w < s.length := by omega
+    have hlen := C20.cutoff_len s w tail hw out h
+    have h1 : ¬ w < 1 := by omega
+    unfold strCutoff at h
+    simp only [h1, if_false, hl, if_true] at h
+    cases tail with
+    | true =>
+        simp only [if_true, Option.some.injEq] at h
+        subst h
+        simp only [Bool.and_eq_true, beq_iff_eq, if_true]
+        refine ⟨by rw [hlen]; omega, by simp, ?_⟩
+        simp only [List.dropLast_concat]
+        exact (isPrefixB_iff _ _).mpr (List.take_prefix _ _)
+    | false =>
+        simp only [Bool.false_eq_true, if_false, Option.some.injEq] at h
+        subst h
+        simp only [Bool.and_eq_true, beq_iff_eq, Bool.false_eq_true, if_false]
+        refine ⟨by rw [hlen]; omega, by simp, ?_⟩
+        simp only [List.tail_cons, isSuffixB]
+        rw [isPrefixB_iff]
+        exact List.reverse_prefix.mpr (List.drop_suffix _ _)
 
 /-! non-vacuity -/
 example : strCutoff [97, 98, 99, 100, 101, 102, 103] 4 false = some [35, 101, 102, 103] := by decide
